@@ -3,6 +3,8 @@ package main
 import (
 	"encoding/json"
 
+	"google.golang.org/protobuf/proto"
+
 	"github.com/smart-core-os/sc-api/go/traits"
 	"github.com/smart-core-os/sc-golang/pkg/resource"
 	"github.com/smart-core-os/sc-golang/pkg/trait/enterleavesensorpb"
@@ -127,7 +129,10 @@ func runEnterLeave(raw json.RawMessage, out *hx.Out) {
 		event := &traits.EnterLeaveEvent{Occupant: &traits.EnterLeaveEvent_Occupant{Name: "someone"}}
 		if op.Op == "Event" {
 			if op.Echo { // the last event read, with only the direction set
-				event, _ = m.GetEnterLeaveEvent()
+				// (a copy: without a read mask the model hands out the stored message itself, and for a default
+				// model that is the package-level initial event shared by every default model)
+				last, _ := m.GetEnterLeaveEvent()
+				event = proto.Clone(last).(*traits.EnterLeaveEvent)
 				o.How = "echo"
 			} else {
 				event.EnterTotal, event.LeaveTotal = concOptInt(op.Se.resolve(o.Pre.Enter)), concOptInt(op.Sl.resolve(o.Pre.Leave))
